@@ -141,6 +141,11 @@ func genValidConfig(r R) cors.Config {
 			if sch == "http" && (c.Credentialed || c.PrivateNetworkAccess || c.PrivateNetworkAccessInNoCORSModeOnly) {
 				c.DangerouslyTolerateInsecureOrigins = true
 			}
+		} else if r.chance(1, 10) { // many ports under one host and scheme
+			h := r.pick([]string{"https://example.com", "https://*.example.org", "http://localhost", "https://ports.example.net"})
+			for _, i := range r.Perm(genCount(r)) {
+				c.Origins = append(c.Origins, h+":"+strconv.Itoa(2000+13*i))
+			}
 		} else if r.chance(1, 6) {
 			for k := 1 + r.Intn(3); k > 0; k-- {
 				c.Origins = append(c.Origins, genInsecureOrigin(r))
